@@ -25,8 +25,14 @@ type loaded struct {
 }
 
 func repoEnv() []string {
-	env := os.Environ()
-	env = append(env, "GOFLAGS=-mod=mod", "GOPROXY=off", "PKG_CONFIG_PATH="+verifDir+"/build/libflux", "CGO_ENABLED=1")
+	var env []string
+	for _, e := range os.Environ() {
+		if strings.HasPrefix(e, "GOTOOLCHAIN=") || strings.HasPrefix(e, "GOSUMDB=") || strings.HasPrefix(e, "GOFLAGS=") {
+			continue // the repo's go.mod selects its own (cached) toolchain
+		}
+		env = append(env, e)
+	}
+	env = append(env, "GOFLAGS=-mod=mod", "GOPROXY=off", "PKG_CONFIG_PATH="+verifDir+"/build/libflux", "CGO_ENABLED=1", "CGO_LDFLAGS=-O2 -g -L"+verifDir+"/build/libflux")
 	return env
 }
 
